@@ -621,11 +621,56 @@ def stream_plate(env, rng, counts):
     return ("plate", str(c.order), tuple(step["desc"]["reduced"]), mixture)
 
 
+def _moment_check(c, dim, obs, approx, tb, tdata):
+    kept = [k for k in c.batch if k not in approx]
+    groups = {}
+    for p in c.points():
+        w, P = c.at(p)
+        lam, eta, cc = dense_layout(c.layout, w, P)
+        inv = mat_inv(lam)
+        mean = np.array([float(sum((inv[i][j] * eta[j] for j in range(dim)), F(0))) for i in range(dim)])
+        cov = np.array([[float(v) for v in r] for r in inv])
+        c2 = cc + sum((eta[i] * inv[i][j] * eta[j] for i in range(dim) for j in range(dim)), F(0)) / 2
+        logm = float(c2) + logconst(dim, mat_det(lam)) + float(tdata[tuple(p[k] for k, _ in tb)])
+        groups.setdefault(tuple(p[k] for k in kept), []).append((logm, mean, cov))
+    for key, comps in groups.items():
+        p = dict(zip(kept, key))
+        mass = sum(math.exp(l) for l, _, _ in comps)
+        ws = [math.exp(l) / mass for l, _, _ in comps]
+        mu = sum(w_ * m for w_, (_, m, _) in zip(ws, comps))
+        second = sum(w_ * (cv + np.outer(m, m)) for w_, (_, m, cv) in zip(ws, comps))
+        cov = second - np.outer(mu, mu)
+        iw, iP, it = obs.at(p)
+        ilam, ieta, icc = dense_layout(obs.layout, iw, iP)
+        # result layout may order the reals differently: permute to c.layout order
+        offs, o = {}, 0
+        for k, n in obs.layout:
+            offs[k] = o
+            o += n
+        perm = [offs[k] + e for k, n in c.layout for e in range(n)]
+        il = np.array([[float(ilam[a][b]) for b in perm] for a in perm])
+        ie = np.array([float(ieta[a]) for a in perm])
+        icov = np.linalg.inv(il)
+        imu = icov @ ie
+        ilogm = float(icc) + float(it) + 0.5 * float(ie @ icov @ ie) + 0.5 * dim * LOG2PI - 0.5 * math.log(np.linalg.det(il))
+        sc = max(1.0, float(np.max(np.abs(cov))), float(np.max(np.abs(mu))))
+        if not fclose(math.exp(ilogm), mass, mass, 1e-7):
+            raise CaseFail("C13.moment-matching-mass", point=p, expected=str(mass), got=str(math.exp(ilogm)))
+        if not np.allclose(imu, mu, rtol=0, atol=1e-7 * sc):
+            raise CaseFail("C13.moment-matching-mean", point=p, expected=str(mu.tolist()), got=str(imu.tolist()))
+        if not np.allclose(icov, cov, rtol=0, atol=1e-7 * sc):
+            raise CaseFail("C13.moment-matching-covariance", point=p, expected=str(cov.tolist()),
+                           got=str(icov.tolist()))
+
+
 def stream_moment(env, rng, counts):
-    """moment_matching of a mixture over integer inputs preserves total mass, mean and covariance."""
+    """moment_matching of a mixture over integer inputs preserves total mass, mean and covariance — applied
+    REPEATEDLY to the same mixture object: one Tensor + Gaussian mixture is collapsed over {i}, {j}, {i,j}, {i}
+    again, … (random order); every result is gated on log-mass, mean and covariance against the textbook mixture
+    moments of the dense parameters, and a repeated reduction must reproduce its first answer bit for bit."""
     nreal = rng.choice([1, 1, 2])
     reals = [("r", k, rng.choice([(), (), (2,)])) for k in rng.sample(REAL_NAMES, nreal)]
-    ints = [("b", k, rng.choice([2, 2, 3])) for k in rng.sample(BATCH_NAMES, rng.choice([1, 1, 2]))]
+    ints = [("b", k, rng.choice([2, 2, 3])) for k in rng.sample(BATCH_NAMES, rng.choice([1, 2, 2]))]
     order = ints + reals
     if rng.random() < 0.5:
         rng.shuffle(order)
@@ -642,64 +687,43 @@ def stream_moment(env, rng, counts):
     tb = [(k, n) for k, n in c.batch.items() if rng.random() < 0.8]
     tdata = dy_array(rng, tuple(n for _, n in tb), pool=[-1, -0.5, 0, 0, 0.5, 1])
     t = Tensor(tdata, OrderedDict((k, Bint[n]) for k, n in tb))
-    approx = rng.sample(list(c.batch), rng.randint(1, len(c.batch)))
-    hist = [dict(op="gaussian", **c.describe()), dict(op="moment-matching", tensor_inputs=tb, tensor=tdata.tolist(),
-                                                      reduced=approx)]
+    bn = list(c.batch)
+    subsets = [[k] for k in bn] + ([bn] if len(bn) > 1 else [])
+    rng.shuffle(subsets)
+    sequence = subsets + [subsets[0]] + [rng.choice(subsets) for _ in range(2)]
+    mix = t + g if rng.random() < 0.5 else None      # one long-lived mixture object (and one Gaussian object)
+    snaps = {}
+    hist = None
     try:
-        with moment_matching:
-            res = expect_value(counts, "moment-matching",
-                               lambda: (t + g).reduce(ops.logaddexp, frozenset(approx)), True, hist)
-        obs = Obs(res)
-        if obs.g is None:
-            counts("moment:no-gaussian")
-            return None
-        kept = [k for k in c.batch if k not in approx]
-        groups = {}
-        for p in c.points():
-            w, P = c.at(p)
-            lam, eta, cc = dense_layout(c.layout, w, P)
-            inv = mat_inv(lam)
-            mean = np.array([float(sum((inv[i][j] * eta[j] for j in range(dim)), F(0))) for i in range(dim)])
-            cov = np.array([[float(v) for v in r] for r in inv])
-            c2 = cc + sum((eta[i] * inv[i][j] * eta[j] for i in range(dim) for j in range(dim)), F(0)) / 2
-            logm = float(c2) + logconst(dim, mat_det(lam)) + float(tdata[tuple(p[k] for k, _ in tb)])
-            groups.setdefault(tuple(p[k] for k in kept), []).append((logm, mean, cov))
-        for key, comps in groups.items():
-            p = dict(zip(kept, key))
-            mass = sum(math.exp(l) for l, _, _ in comps)
-            ws = [math.exp(l) / mass for l, _, _ in comps]
-            mu = sum(w_ * m for w_, (_, m, _) in zip(ws, comps))
-            second = sum(w_ * (cv + np.outer(m, m)) for w_, (_, m, cv) in zip(ws, comps))
-            cov = second - np.outer(mu, mu)
-            iw, iP, it = obs.at(p)
-            ilam, ieta, icc = dense_layout(obs.layout, iw, iP)
-            # result layout may order the reals differently: permute to c.layout order
-            offs, o = {}, 0
-            for k, n in obs.layout:
-                offs[k] = o
-                o += n
-            perm = [offs[k] + e for k, n in c.layout for e in range(n)]
-            il = np.array([[float(ilam[a][b]) for b in perm] for a in perm])
-            ie = np.array([float(ieta[a]) for a in perm])
-            icov = np.linalg.inv(il)
-            imu = icov @ ie
-            ilogm = float(icc) + float(it) + 0.5 * float(ie @ icov @ ie) + 0.5 * dim * LOG2PI - 0.5 * math.log(np.linalg.det(il))
-            sc = max(1.0, float(np.max(np.abs(cov))), float(np.max(np.abs(mu))))
-            if not fclose(math.exp(ilogm), mass, mass, 1e-7):
-                raise CaseFail("C13.moment-matching-mass", point=p, expected=str(mass), got=str(math.exp(ilogm)))
-            if not np.allclose(imu, mu, rtol=0, atol=1e-7 * sc):
-                raise CaseFail("C13.moment-matching-mean", point=p, expected=str(mu.tolist()), got=str(imu.tolist()))
-            if not np.allclose(icov, cov, rtol=0, atol=1e-7 * sc):
-                raise CaseFail("C13.moment-matching-covariance", point=p, expected=str(cov.tolist()),
-                               got=str(icov.tolist()))
+        for approx in sequence:
+            hist = [dict(op="gaussian", **c.describe()),
+                    dict(op="moment-matching-sequence", tensor_inputs=tb, tensor=tdata.tolist(),
+                         sequence=sequence, failing=approx)]
+            with moment_matching:
+                res = expect_value(counts, "moment-matching",
+                                   lambda: (mix if mix is not None else t + g).reduce(ops.logaddexp, frozenset(approx)),
+                                   True, hist)
+            obs = Obs(res)
+            if obs.g is None:
+                counts("moment:no-gaussian")
+                return None
+            _moment_check(c, dim, obs, approx, tb, tdata)
+            snap = _snapshot(res)
+            key = tuple(sorted(approx))
+            counts("moment:repeat" if key in snaps else "moment:first")
+            if key in snaps and snaps[key] != snap:
+                raise CaseFail("C13.history-dependent-result", expected="the same arrays as the first time",
+                               got="a different moment-matched Gaussian when the same reduction is repeated", vars=approx)
+            snaps.setdefault(key, snap)
+            counts("moment:matched")
     except Declined as e:
         counts("moment:lazy:" + str(e))
         return None
     except CaseFail as cf:
         cf.kw.setdefault("witness_history", hist)
         raise
-    counts("moment:matched")
-    return ("moment", str(order), tuple(approx), c.rank)
+    counts("moment:sequences")
+    return ("moment", str(order), str(sequence), c.rank)
 
 
 def _snapshot(f):
